@@ -15,9 +15,10 @@
  *
  * Oracle here: sanitizers (ASan/UBSan/LSan), libFuzzer's time-out, and the "context still usable" probe.
  * Oracle messages are printed as "C12-ORACLE: <key> | <text>" followed by abort().
- * Nothing in this file can reach the network or the file system through libksi: no aggregator / extender /
- * publications URL is ever configured on the contexts used for parsing and verification; the URI variant
- * configures endpoints on a separate context on which no request is ever made.
+ * Nothing in this file can reach the network through libksi: no aggregator / extender / publications URL is ever
+ * configured on the contexts used for parsing; the URI variant configures endpoints on a separate context on which
+ * no request is ever made; the client round trip (PDU entries, variant bit 1) uses two further contexts whose
+ * endpoints are a file:// URI of an anonymous memory file that holds exactly the current input.
  */
 #include <ksi/ksi.h>
 #include <ksi/net.h>
@@ -78,8 +79,9 @@ static void touch(const void *p, size_t n) { const unsigned char *b = p; unsigne
 static void touch_str(const char *s) { if (s) g_sink += (unsigned)strlen(s); }
 
 static int log_sink(void *c, int level, const char *msg) {
-	(void)c; (void)level;
-	if (msg) { g_sink += (unsigned)strlen(msg); c12_stat[ST_LOG_MSGS]++; }
+	(void)c;
+	static int echo = -1; if (echo < 0) echo = getenv("C12_LOG_STDERR") != NULL;
+	if (msg) { g_sink += (unsigned)strlen(msg); c12_stat[ST_LOG_MSGS]++; if (echo) fprintf(stderr, "LOG[%d] %s\n", level, msg); }
 	return KSI_OK;
 }
 
@@ -382,6 +384,46 @@ static void e_sig(KSI_CTX *ctx, int m, const unsigned char *p, size_t n, int var
 	KSI_Signature_free(sig);
 }
 
+/* the bytes as the reply to a request of the blocking client: the file transport reads them from an anonymous memory file, the client
+ * parses, authenticates (key "anon") and matches them with its request, logs request and reply, and builds / extends a signature */
+static int g_resp_fd = -1; static KSI_Signature *g_client_sig[2]; static int g_client_ready[2]; static KSI_CTX *g_cctx[2]; static int g_logon;
+static int log_sink(void *c, int level, const char *msg);
+static void client_round_trip(KSI_CTX *pctx, int m, const unsigned char *p, size_t n, int ext, uint64_t *h) {
+	char uri[64]; KSI_Signature *out = NULL; int res; KSI_CTX *ctx; (void)pctx;
+	if (g_resp_fd < 0) { g_resp_fd = memfd_create("c12-reply", 0); if (g_resp_fd < 0) return; }
+	/* contexts of their own (data-hash cache off / default): the parsing contexts never get an endpoint */
+	if (g_cctx[m] == NULL) {
+		if (KSI_CTX_new(&g_cctx[m]) != KSI_OK) { g_cctx[m] = NULL; return; }
+		if (m == 0) KSI_CTX_setOption(g_cctx[m], KSI_OPT_DATAHASH_CACHE_SIZE, (void *)(size_t)0);
+		KSI_CTX_setLoggerCallback(g_cctx[m], log_sink, NULL);
+	}
+	ctx = g_cctx[m];
+	KSI_CTX_setLogLevel(ctx, g_logon ? KSI_LOG_DEBUG : KSI_LOG_NONE);
+	/* the file transport keeps its file open and reads one reply after the other from it: a fresh endpoint for every round trip */
+	snprintf(uri, sizeof uri, "file:///proc/self/fd/%d", g_resp_fd);
+	if ((ext ? KSI_CTX_setExtender(ctx, uri, "anon", "anon") : KSI_CTX_setAggregator(ctx, uri, "anon", "anon")) != KSI_OK) return;
+	if (!g_client_ready[m]) {
+		if (KSI_Signature_parseWithPolicy(ctx, g_probe[0], g_probe_len[0], KSI_VERIFICATION_POLICY_EMPTY, NULL, &g_client_sig[m]) != KSI_OK) g_client_sig[m] = NULL;
+		g_client_ready[m] = 1;
+	}
+	if (ftruncate(g_resp_fd, 0) != 0 || pwrite(g_resp_fd, p, n, 0) != (ssize_t)n) return;
+	if (!ext) {
+		KSI_DataHash *zero = NULL;
+		if (KSI_DataHash_createZero(ctx, KSI_HASHALG_SHA2_256, &zero) != KSI_OK) return;
+		c12_stat[ST_CLIENT_SIGN]++;
+		res = KSI_Signature_signAggregated(ctx, zero, (*h >> 24) % 3, &out);
+		KSI_DataHash_free(zero);
+	} else {
+		if (g_client_sig[m] == NULL) return;
+		c12_stat[ST_CLIENT_EXTEND]++;
+		res = KSI_Signature_extendTo(g_client_sig[m], ctx, NULL, &out);
+	}
+	if (res == KSI_OK && out) { c12_stat[ST_CLIENT_OK]++; sig_followups(ctx, m, out, 0, h, 1); }
+	else if (res != KSI_OK && out) oracle_fail("client:object-on-error", "signature object returned together with status 0x%x", res);
+	KSI_Signature_free(out);
+	see_errors(ctx, h);
+}
+
 static void e_aggr(KSI_CTX *ctx, int m, const unsigned char *p, size_t n, int variant, uint64_t h) {
 	KSI_AggregationPdu *pdu = NULL; int res;
 	KSI_CTX_setOption(ctx, KSI_OPT_AGGR_PDU_VER, (void *)(size_t)((variant & 1) ? 1 : 2));
@@ -442,6 +484,7 @@ static void e_aggr(KSI_CTX *ctx, int m, const unsigned char *p, size_t n, int va
 	}
 	see_errors(ctx, &h);
 	KSI_AggregationPdu_free(pdu);
+	if (variant & 2) client_round_trip(ctx, m, p, n, 0, &h);
 	KSI_CTX_setOption(ctx, KSI_OPT_AGGR_PDU_VER, (void *)(size_t)2);
 }
 
@@ -489,6 +532,7 @@ static void e_ext(KSI_CTX *ctx, int m, const unsigned char *p, size_t n, int var
 	}
 	see_errors(ctx, &h);
 	KSI_ExtendPdu_free(pdu);
+	if (variant & 2) client_round_trip(ctx, m, p, n, 1, &h);
 	KSI_CTX_setOption(ctx, KSI_OPT_EXT_PDU_VER, (void *)(size_t)2);
 }
 
@@ -802,6 +846,7 @@ static int uri_ctx_new(void) {
 void c12_teardown(void) {
 	int m;
 	for (m = 0; m < 2; m++) {
+		KSI_Signature_free(g_client_sig[m]); g_client_sig[m] = NULL; g_client_ready[m] = 0; KSI_CTX_free(g_cctx[m]); g_cctx[m] = NULL;
 		KSI_PublicationData_free(g_userpub[m]); g_userpub[m] = NULL;
 		KSI_PublicationsFile_free(g_pubfile[m]); g_pubfile[m] = NULL;
 		KSI_CTX_free(g_ctx[m]); g_ctx[m] = NULL;
@@ -885,7 +930,7 @@ int LLVMFuzzerTestOneInput(const uint8_t *data, size_t size) {
 	if (g_nblock) { uint64_t k = mix(h ^ (uint64_t)e * 0x100000001b3ull); size_t i; for (i = 0; i < g_nblock; i++) if (g_block[i] == k) { c12_stat[ST_SKIP_BLOCKED]++; return 0; } }
 	memcpy(g_ring[g_ring_pos], data, size); g_ring_len[g_ring_pos] = size; g_ring_pos = (g_ring_pos + 1) % RING;
 	ctx = g_ctx[m];
-	KSI_CTX_setLogLevel(ctx, logon ? KSI_LOG_DEBUG : KSI_LOG_NONE);
+	KSI_CTX_setLogLevel(ctx, logon ? KSI_LOG_DEBUG : KSI_LOG_NONE); g_logon = logon;
 	KSI_ERR_clearErrors(ctx);
 	p = exact(data + 1, n);
 	c12_stat[ST_EXEC + e]++; c12_stat[m ? ST_CACHE_DEFAULT : ST_CACHE_OFF]++; if (logon) c12_stat[ST_LOGGED]++;
